@@ -281,6 +281,26 @@ def keygen(ctx):
     k = JWKRegistry.generate_key("oct", 256, private=True, auto_kid=True)
     if not k.kid:
         ctx.report("auto_kid produced no kid", {}, "keygen:auto-kid")
+    # every generation route and both visibilities: public-only keys, the registry front end, generated key sets
+    from joserfc.jwk import KeySet
+    m = 3 if ctx.tier == "quick" else 8
+    routes = []
+    for kty, arg, cls in (("RSA", 1024, RSAKey), ("EC", "P-256", ECKey), ("EC", "secp256k1", ECKey), ("OKP", "Ed25519", OKPKey), ("OKP", "X448", OKPKey)):
+        for private in (True, False):
+            routes.append((f"{cls.__name__}.generate_key({arg!r}, private={private})", [cls.generate_key(arg, private=private) for _ in range(m)], arg))
+            routes.append((f"JWKRegistry.generate_key({kty!r}, {arg!r}, private={private})", [JWKRegistry.generate_key(kty, arg, private=private) for _ in range(m)], arg))
+            routes.append((f"KeySet.generate_key_set({kty!r}, {arg!r}, private={private}, count={m})", list(KeySet.generate_key_set(kty, arg, private=private, count=m).keys), arg))
+    routes.append(("KeySet.generate_key_set('oct', 256)", list(KeySet.generate_key_set("oct", 256, count=m).keys), 256))
+    for what, ks, arg in routes:
+        ctx.count("keygen-routes", what, True, what.split("(")[0])
+        fps = [KC.pub_fingerprint(k.raw_value) if not isinstance(k.raw_value, bytes) else k.raw_value for k in ks]
+        if len(set(fps)) != len(ks):
+            ctx.report(f"{what}: {len(ks)} generated keys share {len(set(fps))} distinct public value(s)", {"route": what}, "keygen:route-duplicates")
+        for k in ks:
+            size_ok = (k.raw_value.key_size == arg) if k.key_type == "RSA" else (len(k.raw_value) * 8 == arg if k.key_type == "oct" else k.curve_name == arg)
+            if not size_ok:
+                ctx.report(f"{what}: a generated key is not of the requested size / curve", {"route": what}, "keygen:route-size")
+                break
 
 
 def run(ctx):
